@@ -88,14 +88,17 @@ def run(ctx, rs: RuleSet, prop: str, repo: str, seed: int) -> Dict:
     alpha.REPO = repo
     import shutil
     import tempfile
-    tmp = tempfile.mkdtemp(prefix='fdlstatic-alpha-')
-    try:
-      n = alpha.make_variant(tmp)
-      _, ok, rc, _ = alpha.run_check(tmp, prop)
-      probes['alpha_renamed_copy'] = (
-          f'{n} locals renamed: ' + ('silent' if ok else f'NOT SILENT rc={rc}'))
-    finally:
-      shutil.rmtree(tmp, ignore_errors=True)
+    for mode, what in (('alpha', 'locals renamed'),
+                       ('flip', 'two-armed ifs flipped'),
+                       ('guard', 'else branches made guard clauses')):
+      tmp = tempfile.mkdtemp(prefix='fdlstatic-alpha-')
+      try:
+        n = alpha.make_variant(tmp, mode)
+        _, ok, rc, _ = alpha.run_check(tmp, prop)
+        probes[f'{mode}_copy'] = (
+            f'{n} {what}: ' + ('silent' if ok else f'NOT SILENT rc={rc}'))
+      finally:
+        shutil.rmtree(tmp, ignore_errors=True)
   except Exception as e:  # pylint: disable=broad-except
     probes['error'] = repr(e)
   for k, v in probes.items():
